@@ -202,7 +202,8 @@ YieldArg(K, m) == \E o \in G!TopOccs(K, m) :
 MissingInBoolOp(K, m) == \E o \in G!TopOccs(K, m) : o.k = "BoolOp" /\ o.g # "" /\ G!CapOf(K, m, o.g).t = "missing"
 Detail(K) == (IF \E m \in K.Sel : YieldArg(K, m) THEN "/yield-arg" ELSE "")
              \o (IF \E m \in K.Sel : MissingInBoolOp(K, m) THEN "/missing-in-boolop" ELSE "")
-             \o (IF K.nested /\ Len(K.T) > 1 THEN "/multi-stmt-template" ELSE "")
+             \o (IF K.nested /\ (Len(K.T) > 1 \/ (Cfg.replModule /\ Cfg.cat = "stmt")) THEN "/slice-template" ELSE "")
+             \o (IF K.nested /\ \E m \in K.Sel : \E o \in G!TopOccs(K, m) : o.g = "" /\ o.flat THEN "/whole-flatten" ELSE "")
 
 DoneClauses(s, e) ==
   LET t  == e.post
